@@ -12,8 +12,8 @@
     * `c20_boltShift_split`, `c20_boltShift_lt`, `c20_shift_zero`, `c20_shift_half`, `c20_shift_step`.
 
   The end-to-end statements for the three helpers over the model are `BoltCpStatement`, `BoltCcCrStatement`, `BoltCcDcStatement`
-  (Props/C20.lean); they are NOT proved (the composition of these lemmas with the encoders, the accumulation folds and the
-  giant-step tail is missing) — the model's whole schedule is compared with the code bit for bit by the driver instead.
+  (Props/C20.lean); they are proved in C20L (generic lemmas), C20M (`bolt_cp`), C20N (`bolt_cc_cr`), C20O (`bolt_cc_dc`).  The model's
+  whole schedule is compared with the code bit for bit by the driver.
 -/
 import Heathcliff.Proofs.C20I
 import Mathlib.Algebra.BigOperators.Fin
